@@ -341,6 +341,21 @@ func (m *chainModel) cliqueBuildOp(op c29Op, p *node) (*types.Header, string) {
 		a := rec[op.Arg%len(rec)]
 		h.Difficulty = rightDiff(a)
 		resign(keyIndexOf(a))
+	case "recent-dist":
+		d := 2 + op.Arg%5
+		if op.Arg >= 2 && op.Arg <= 6 {
+			d = op.Arg
+		}
+		q := p
+		for i := 1; i < d && q != nil; i++ {
+			q = q.parent
+		}
+		if q == nil || keyIndexOf(q.sealer) < 0 {
+			return h, "mut:recent-dist:no-such-ancestor"
+		}
+		h.Difficulty = rightDiff(q.sealer)
+		resign(keyIndexOf(q.sealer))
+		label = fmt.Sprintf("mut:recent-dist:d=%d:%s:%s", d, windowClass(d, len(ps.signers), ps.has(q.sealer)), m.phase(p, num))
 	case "diff-flip":
 		h.Difficulty = big.NewInt(3 - h.Difficulty.Int64())
 		resign(ki)
